@@ -14,6 +14,7 @@ import (
 
 	"github.com/jf-tech/omniparser"
 	"github.com/jf-tech/omniparser/errs"
+	"github.com/jf-tech/omniparser/idr"
 	"github.com/jf-tech/omniparser/schemahandler"
 	"github.com/jf-tech/omniparser/transformctx"
 
@@ -129,6 +130,7 @@ type runResult struct {
 	Violation string
 	AfterTerm int // operations issued after the first terminal result
 	Terminal  bool
+	RawDescs  []string // built-in handler: what each successful RawRecord call described (checksum + node as JSON)
 }
 
 // drive issues ops on t; ops is extended with Reads until a terminal result (bounded) and a
@@ -217,6 +219,13 @@ func drive(r *vh.Rng, t omniparser.Transform, log *vh.Log, ei *vh.ErrIntern, bui
 			case err == nil && raw != nil:
 				o.Raw = rawID(raw)
 				o.coq = "OutRaw (RROk " + vh.CoqN(o.Raw) + ")"
+				if builtin {
+					d := raw.Checksum()
+					if n, ok := raw.Raw().(*idr.Node); ok && n != nil {
+						d += " " + idr.JSONify2(n)
+					}
+					res.RawDescs = append(res.RawDescs, d)
+				}
 			case err != nil && anyRead && lastReadErr != nil:
 				v := ei.Of(err)
 				o.Err = &v
@@ -404,6 +413,48 @@ func main() {
 		res := drive(r, t, log, ei, true, len(in)+5, nil)
 		desc := map[string]interface{}{"handler": "builtin", "format": fixtures[fi].Format, "schema": fixtures[fi].Schema,
 			"input_hex": fmt.Sprintf("%x", in), "ops": res.Ops}
+		if res.Violation == "" && r.Chance(0.15) {
+			// What Read returns and what RawRecord describes belongs to the record, not to what the
+			// process did before: transform inputs of other formats (their nodes go back to the node
+			// pool), then the same input again with the same calls, and compare.
+			sum.Hist("rerun-after-other-formats")
+			for _, oi := range []int{5, 6, len(fixtures) - 1} { // json, xml fixtures and the last extra one (xml)
+				if oi == fi || schemas[oi] == nil {
+					continue
+				}
+				if ot, _, oerr := schemas[oi].NewTransform("other", bytesReader(fixtures[oi].Gen(r, 6))); oerr == nil {
+					for k := 0; k < 12; k++ {
+						if _, e := ot.Read(); e != nil && !vh.IsFailed(e) {
+							break
+						}
+					}
+				}
+			}
+			// ... and an XML document with namespace prefixes, read and released node by node
+			if xr, xerr := idr.NewXMLStreamReader(bytesReader([]byte(`<p:r xmlns:p="urn:p"><p:n p:k="1"><p:a>x</p:a><p:b>2</p:b></p:n><p:n><p:a>y</p:a></p:n><p:n p:k="3"/></p:r>`)), "/p:r/p:n"); xerr == nil {
+				for {
+					xn, e := xr.Read()
+					if e != nil {
+						break
+					}
+					xr.Release(xn)
+				}
+			}
+			if t2, log2, err2 := schemas[fi].NewTransform("in", bytesReader(in)); err2 == nil {
+				res2 := drive(r, t2, log2, vh.NewErrIntern(), true, len(in)+5, res.Ops)
+				same := len(res.copies) == len(res2.copies) && len(res.RawDescs) == len(res2.RawDescs)
+				for i := 0; same && i < len(res.copies); i++ {
+					same = res.copies[i] == res2.copies[i]
+				}
+				for i := 0; same && i < len(res.RawDescs); i++ {
+					same = res.RawDescs[i] == res2.RawDescs[i]
+				}
+				if !same && res2.Violation == "" {
+					res.Violation = fmt.Sprintf("the same input transformed again later in the process (after inputs of other formats) gives different records or RawRecord descriptions: first %q / %q, then %q / %q",
+						res.copies, res.RawDescs, res2.copies, res2.RawDescs)
+				}
+			}
+		}
 		finish(sum, cw, ei, fixtures[fi].Format, desc, log, res, log.FmtIdx)
 	}
 	cw.Flush()
